@@ -16,36 +16,42 @@ pub fn preprocess(source: &str) -> String {
 /// Removes the OSCAT ranged comment. This is not valid IEC 61131, but there
 /// are enough of these that it is worthwhile.
 pub fn remove_oscat_comment(source: String) -> String {
-    let len_key = 21; // The length of "(*@KEY@:DESCRIPTION*)"
-    if let Some(start) = source.find("(*@KEY@:DESCRIPTION*)") {
-        if let Some(end) = source.find("(*@KEY@:END_DESCRIPTION*)") {
-            if start < end {
-                let prelude = &source[0..start + len_key];
-                let epilog = &source[end..source.len()];
+    const OPEN: &str = "(*@KEY@:DESCRIPTION*)";
+    const CLOSE: &str = "(*@KEY@:END_DESCRIPTION*)";
 
-                let mut output = String::with_capacity(source.len());
-                output.push_str(prelude);
+    // A file can hold several descriptions (one per declaration). Each one
+    // runs from its opening marker to the first closing marker behind it.
+    let mut output = String::with_capacity(source.len());
+    let mut rest = source.as_str();
+    while let Some(start) = rest.find(OPEN) {
+        let body_start = start + OPEN.len();
+        let body_len = match rest[body_start..].find(CLOSE) {
+            Some(len) => len,
+            None => break,
+        };
+        let body_end = body_start + body_len;
 
-                // Replace the comment internally character-by-character
-                // so that we retain the exact same positions
-                for c in source[start + len_key..end].chars() {
-                    if c == '\n' {
-                        output.push('\n');
-                    } else {
-                        // One blank per byte (not per character) so that byte
-                        // offsets of everything that follows are unchanged
-                        for _ in 0..c.len_utf8() {
-                            output.push(' ');
-                        }
-                    }
+        output.push_str(&rest[..body_start]);
+
+        // Replace the comment internally character-by-character
+        // so that we retain the exact same positions
+        for c in rest[body_start..body_end].chars() {
+            if c == '\n' {
+                output.push('\n');
+            } else {
+                // One blank per byte (not per character) so that byte
+                // offsets of everything that follows are unchanged
+                for _ in 0..c.len_utf8() {
+                    output.push(' ');
                 }
-
-                output.push_str(epilog);
-                return output;
             }
         }
+
+        output.push_str(CLOSE);
+        rest = &rest[body_end + CLOSE.len()..];
     }
-    source
+    output.push_str(rest);
+    output
 }
 
 #[cfg(test)]
